@@ -294,6 +294,9 @@ def eval_cond(n, atom, fn=None, _depth=0):
     if v is not None:
         return v
     k = n.get("k")
+    if fn is not None and k == "call" and n.get("inl_value") is not None and n["inl_value"] in fn.nodes and _depth < 4:
+        # a spliced helper with a single `return <expr>`: the call has the value of that expression
+        return eval_cond(fn.nodes[n["inl_value"]], atom, fn, _depth + 1)
     if fn is not None and k == "ref" and n.get("dk") == "local" and _depth < 4:
         init = single_assignment_init(fn, n.get("decl"))
         if init is not None:
